@@ -29,6 +29,17 @@ package hermes
 //@ func DateConverter$1
 //@   serves C12, C05
 //@   opaque extractDate
+// parsed numbers (first, second, year field of the text, as extractDate returns them); the century of a two-digit year:
+// a year below the configured split belongs to 20xx, a year from the split on to 19xx (the window [1900+cent, 2000+cent))
+//@   ghost var f0 int
+//@   ghost var f1 int
+//@   ghost var yy int
+//@   after call extractDate: ghost f0 = res0
+//@   after call extractDate: ghost f1 = res1
+//@   after call extractDate: ghost yy = res2
+//@   ensures[C12] century: (format == DateDEshort || format == DateENshort) ==> YR == ite(yy < cent, yy + 100, yy)
+//@   ensures[C12] longyear: (format == DateDElong || format == DateENlong) ==> YR == yy - 1900
+//@   ensures[C12] fields: ((format == DateDEshort || format == DateDElong) ==> TG == f0 && MON == f1) && ((format == DateENshort || format == DateENlong) ==> MON == f0 && TG == f1)
 //@   ensures masdat: validDate(1900+YR, MON, TG) ==> masDat == daynumber(1900+YR, MON, TG)
 //@   ensures doy: validDate(1900+YR, MON, TG) ==> ztDat == doy(1900+YR, MON, TG)
 //@ loop DateConverter$1#1
@@ -333,6 +344,8 @@ package hermes
 // C01 / C08  evapotranspiration of one day: surface flux, caps, uptake domain
 //@ func Evatra
 //@   serves C01, C08, C06
+// the water stress ratios handed to the crop model (C09) are Evatra's C08 clauses
+//@   serves C09 as C08
 //@   define tag() = g.TAG.Index
 //@   define pet() = (g.VERDUNST - old(g.VERDUNST))
 //@   define cropped() = zeit > g.SAAT[g.AKF.Index] && g.INTWICK.Num > 1 && ((g.ERNTE[g.AKF.Index] > 0 && zeit < g.ERNTE[g.AKF.Index]) || (g.ERNTE[g.AKF.Index] == 0 && zeit < g.ERNTE2[g.AKF.Index]))
@@ -343,14 +356,14 @@ package hermes
 //@   requires roots: 0 <= g.WURZ && g.WURZ <= g.N
 //@   requires soil: forall(k, 0, g.N, 0 < g.WMIN[k] && g.WMIN[k] < g.WNOR[k] && g.WNOR[k] <= g.W[k])
 //@   requires method: 1 <= g.ETMETH && g.ETMETH <= 5
-//@   requires[C08] inputs: g.VERD[tag()] >= 0 && g.ETNULL[tag()] >= 0 && g.FKC >= 0 && g.FKB >= 0 && g.KCOA >= 0 && g.LAI >= 0
-//@   requires[C08] haude: forall(m, 0, 12, g.FKF[m] >= 0 && g.FKU[m] >= 0)
-//@   requires[C08] sun: g.SUND[tag()] >= 0
-//@   requires[C08] rootdensity: forall(k, 0, 21, g.WUDICH[k] >= 0)
-//@   requires[C08] airstate: g.LUMDAY >= 0 && 0 <= g.ETREL && g.ETREL <= 1 && 0 <= g.TRREL && g.TRREL <= 1
+//@   requires[C08,C06] inputs: g.VERD[tag()] >= 0 && g.ETNULL[tag()] >= 0 && g.FKC >= 0 && g.FKB >= 0 && g.KCOA >= 0 && g.LAI >= 0
+//@   requires[C08,C06] haude: forall(m, 0, 12, g.FKF[m] >= 0 && g.FKU[m] >= 0)
+//@   requires[C08,C06] sun: g.SUND[tag()] >= 0
+//@   requires[C08,C06] rootdensity: forall(k, 0, 21, g.WUDICH[k] >= 0)
+//@   requires[C08,C06] airstate: g.LUMDAY >= 0 && 0 <= g.ETREL && g.ETREL <= 1 && 0 <= g.TRREL && g.TRREL <= 1
 //@   define rz() = min(real(g.WURZ), g.GRW)
 //@   define wtop() = ite(zeit > g.BEGINN, g.WG[1][0]+g.WG[1][1]+g.WG[1][2], g.WG[0][0]+g.WG[0][1]+g.WG[0][2])
-//@   requires[C08] air: g.LUKRIT[g.INTWICK.Index] > 0 || (g.LUKRIT[g.INTWICK.Index] == 0 && g.N >= 3 && g.PORGES[0]+g.PORGES[1]+g.PORGES[2] >= wtop())
+//@   requires[C08,C06] air: g.LUKRIT[g.INTWICK.Index] > 0 || (g.LUKRIT[g.INTWICK.Index] == 0 && g.N >= 3 && g.PORGES[0]+g.PORGES[1]+g.PORGES[2] >= wtop())
 //@   after stmt "LURMAX := LUPOR / g.LUKRIT[g.INTWICK.Index]": assert[C08] lurmax: 0 <= LURMAX && LURMAX <= 1 && 0 <= g.LUMDAY && g.LUMDAY <= 4
 //@   before stmt "for i := 0; i < g.N; i++ { if float64(i+1) > math.Min(": assert[C08] lured: 0 <= g.LURED && g.LURED <= 1
 //@   before stmt "for i := 0; i < g.N; i++ { if float64(i+1) > math.Min(": assert[C08] tramax: TRAMAX >= 0
@@ -370,11 +383,11 @@ package hermes
 //@   safety[C06] index
 // division/domain safety of the ET formulas (over the reals a division by zero or a log/sqrt outside its domain is where
 // a NaN or Inf is born); the physical ranges of the weather and site values are explicit preconditions (assumptions)
-//@   safety[C08] div
-//@   requires[C08] temps: g.TMIN[tag()] >= 0-90 && g.TMAX[tag()] >= 0-90 && g.TEMP[tag()] >= 0-90
-//@   requires[C08] humidity: 0 <= g.RH[tag()] && g.RH[tag()] <= 100
-//@   requires[C08] site: 0-500 <= g.ALTI && g.ALTI <= 9000 && g.WINDHI >= 0.5
-//@   requires[C08] daylight: g.RAD[tag()] > 0 ==> ufreal("extraterrestrial", g.TAG.Num, g.LAT) > 0
+//@   safety[C08,C06] div
+//@   requires[C08,C06] temps: g.TMIN[tag()] >= 0-90 && g.TMAX[tag()] >= 0-90 && g.TEMP[tag()] >= 0-90
+//@   requires[C08,C06] humidity: 0 <= g.RH[tag()] && g.RH[tag()] <= 100
+//@   requires[C08,C06] site: 0-500 <= g.ALTI && g.ALTI <= 9000 && g.WINDHI >= 0.5
+//@   requires[C08,C06] daylight: g.RAD[tag()] > 0 ==> ufreal("extraterrestrial", g.TAG.Num, g.LAT) > 0
 //@ loop Evatra#2
 //@   invariant range: 0 <= \i && \i <= g.N
 //@ loop Evatra#3
@@ -385,8 +398,8 @@ package hermes
 //@   invariant range: 0 <= \i && \i <= g.N
 //@ loop Evatra#6
 //@   invariant range: 0 <= \i && \i <= g.WURZ
-//@   invariant[C08] eff: forall(j, 0, \i, 0 <= WUEFF[j] && WUEFF[j] <= 1 && 0 <= TRRED[j] && TRRED[j] <= 1)
-//@   invariant[C08] weff: WEFF >= 0 && forall(j, 0, \i, WEFF >= WUEFF[j]*g.WUDICH[j])
+//@   invariant[C08,C06] eff: forall(j, 0, \i, 0 <= WUEFF[j] && WUEFF[j] <= 1 && 0 <= TRRED[j] && TRRED[j] <= 1)
+//@   invariant[C08,C06] weff: WEFF >= 0 && forall(j, 0, \i, WEFF >= WUEFF[j]*g.WUDICH[j])
 //@ loop Evatra#7
 //@   invariant range: 0 <= \i && \i <= g.N
 //@   invariant[C08] zero: forall(j, 0, \i, real(j+1) > rz() ==> g.TP[j] == 0)
@@ -932,7 +945,7 @@ package hermes
 
 // tillage of the day: when due the pools are mixed evenly down to the tillage depth, which preserves their sums
 //@ region Nitro#tillage from "if zeit == g.EINTE[g.NTIL.Index+1]+1 && subd == 1 {" to "if zeit == g.EINTE[g.NTIL.Index+1]+1 && subd == 1 {"
-//@   serves C10, C07
+//@   serves C10, C07, C02
 //@   define due() = zeit == old(g.EINTE[g.NTIL.Index+1]) + 1 && subd == 1
 //@   define depth() = old(g.EINT[g.NTIL.Index])
 //@   define mix() = ite(depth() > 0, real(floor(depth()/10 + 0.5)), 0.0)
@@ -944,8 +957,8 @@ package hermes
 //@   ensures[C10] notdue: !due() ==> unchanged(g.NFOS, g.NAOS, g.MINFOS, g.MINAOS, g.C1, g.NTIL.Index)
 //@   ensures[C07] fastsum: sum(z, 0, floor(mix()), 4, g.NFOS[z] + g.MINFOS[z]) == sum(z, 0, floor(mix()), 4, old(g.NFOS[z]) + old(g.MINFOS[z]))
 //@   ensures[C07] slowsum: sum(z, 0, floor(mix()), 4, g.NAOS[z] + g.MINAOS[z]) == sum(z, 0, floor(mix()), 4, old(g.NAOS[z]) + old(g.MINAOS[z]))
-//@   ensures[C07] mineralsum: sum(z, 0, floor(mix()), 4, g.C1[z]) == sum(z, 0, floor(mix()), 4, old(g.C1[z]))
-//@   ensures[C07] below: forall(k, 4, 21, g.NFOS[k] == old(g.NFOS[k]) && g.NAOS[k] == old(g.NAOS[k]) && g.C1[k] == old(g.C1[k]))
+//@   ensures[C07,C02] mineralsum: sum(z, 0, floor(mix()), 4, g.C1[z]) == sum(z, 0, floor(mix()), 4, old(g.C1[z]))
+//@   ensures[C07,C02] below: forall(k, 4, 21, g.NFOS[k] == old(g.NFOS[k]) && g.NAOS[k] == old(g.NAOS[k]) && g.C1[k] == old(g.C1[k]))
 //@   ensures[C10] schedule: unchanged(g.EINTE, g.EINT)
 //@ loop Nitro@"for z := 0; z < int(mixtief); z++ { // Vollstaendige"
 //@   invariant range: 0 <= \i && \i <= int(mixtief) && 0 <= int(mixtief) && int(mixtief) <= 4 && mixtief == real(int(mixtief))
@@ -1073,7 +1086,7 @@ package hermes
 // calendar of the day loop: the day of year advances by one, rolls over after the last day of the loaded year, and a failing
 // weather loader ends the run (ghost werr records a loader error; reaching the end of the region means there was none)
 //@ region HermesSession.Run$1#calendar from "g.TAG.Add(g.DT.Index)" to "if g.TAG.Num == g.DT.Num {"
-//@   serves C04, C05
+//@   serves C04, C05, C11
 //@   opaque WetterK
 //@   ghost var werr bool = false
 //@   after call LoadYear: ghost werr = werr || !isnil(res0)
@@ -1083,7 +1096,7 @@ package hermes
 //@   requires year: g.JTAG == 365 || g.JTAG == 366
 //@   ensures[C04,C05] nextday: ite(old(g.TAG.Index) + 2 > old(g.JTAG), g.TAG.Index == 0 && g.J == old(g.J) + 1, g.TAG.Index == old(g.TAG.Index) + 1 && g.J == old(g.J))
 //@   ensures[C04,C05] dual: g.TAG.Num == real(g.TAG.Index + 1)
-//@   ensures[C04] loadererrors: !werr
+//@   ensures[C04,C11] loadererrors: !werr
 //@   ensures[C04] reload: g.TAG.Index == 0 && (driConfig.WeatherFileFormat == 0 || driConfig.WeatherFileFormat == 1 || driConfig.WeatherFileFormat == 2) ==> exists(y, 0, len(bbbShared.MaxYearDays), bbbShared.JAR[y] == 1900 + g.J && g.JTAG == bbbShared.MaxYearDays[y])
 
 // lock-step lemma: day number and (year, day of year) advance together (years of 365 + leap days as loaded)
@@ -1102,7 +1115,7 @@ package hermes
 
 // first simulation year: every reader/loader error ends the run before Init
 //@ region HermesSession.Run$1#firstyear from "if driConfig.WeatherFileFormat == 1 { yearEnde" to "if driConfig.WeatherFileFormat == 1 { yearEnde"
-//@   serves C04
+//@   serves C04, C11
 //@   opaque WetterK ReadWeatherCSV ReadWeatherCZ
 //@   ghost var werr bool = false
 //@   after call LoadYear: ghost werr = werr || !isnil(res0)
@@ -1177,7 +1190,7 @@ package hermes
 //@   ensures nextsowing: forall(k, 0, 300, k != idx() + 1 ==> g.SAAT[k] == old(g.SAAT[k])) && (g.SAAT[idx()+1] == old(g.SAAT[idx()+1]) || g.SAAT[idx()+1] == zeit + 4)
 
 //@ region PhytoOut#forcedharvest from "if zeit == g.ERNTE2[g.AKF.Index]-1 && g.ERNTE[g.AKF.Index] == 0 { g.ERNTE[g.AKF.Index] = zeit + 1 if g.SAAT" to "if zeit == g.ERNTE2[g.AKF.Index]-1 && g.ERNTE[g.AKF.Index] == 0 { g.ERNTE[g.AKF.Index] = zeit + 1 if g.SAAT"
-//@   serves C16
+//@   serves C16, C05
 //@   define idx() = g.AKF.Index
 //@   requires crop: 0 <= g.AKF.Index && g.AKF.Index < 299
 //@   ensures forced: old(g.ERNTE[idx()]) == 0 && zeit == g.ERNTE2[idx()] - 1 ==> g.ERNTE[idx()] == g.ERNTE2[idx()]
@@ -1561,3 +1574,98 @@ package hermes
 //@   after stmt "g.GRW, _ = GetGroundWaterLevel(g, g.BEGINN-2)": assume seriesValuesNotNegative: g.GRW >= 0
 //@   requires level: g.GRW >= 0 && g.GW - abs(g.AMPL) >= 0
 //@   ensures nonneg: g.GRW >= 0
+
+// ---------------------------------------------------------------------------
+// C07  the fixation handed to the transport routine is TODAY's fixation of THIS crop (zero for a non-legume), and it is
+// counted in the cumulative fixation; the uptake request of a day does not survive the day
+//@ region PhytoOut#fixation from "if g.LEGUM { if DTGESN-SUMPE > 0.74*DTGESN {" to "g.NFIXSUM = g.NFIXSUM + g.NFIX"
+//@   serves C07
+//@   ensures handover: g.SCHNORR == g.NFIX
+//@   ensures counted: g.NFIXSUM == old(g.NFIXSUM) + g.NFIX
+//@   ensures nonlegume: !g.LEGUM ==> g.NFIX == 0 && g.SCHNORR == 0
+//@   ensures legume: g.LEGUM ==> g.NFIX == ite(DTGESN - SUMPE > 0.74*DTGESN, 0.74*DTGESN, DTGESN - SUMPE)
+//@ region HermesSession.Run$1#pereset from "for I := 1; I <= g.N; I++ { g.PE[I-1] = 0 }" to "if g.BART[0][0] == 'H' {"
+//@   serves C07
+//@   opaque Denitmo Denitr
+//@   requires layers: 1 <= g.N && g.N <= 20
+//@   after stmt "for I := 1; I <= g.N; I++ { g.PE[I-1] = 0 }": assert cleared: forall(z, 0, g.N, g.PE[z] == 0)
+//@   ensures cleared: forall(z, 0, g.N, g.PE[z] == 0)
+//@ loop HermesSession.Run$1@"for I := 1; I <= g.N; I++ { g.PE[I-1] = 0 }"
+//@   invariant range: 1 <= \i && \i <= g.N + 1
+//@   invariant cleared: forall(z, 0, \i - 1, g.PE[z] == 0)
+
+// C20  the phase shift the sinusoid uses is the configured one (every value, including 0)
+//@ region readConfig#gwphase from "g.GWPhase = hconfig.GroundWaterPhase" to "if len(hconfig.WeatherFolder) == 0 {"
+//@   serves C20
+//@   ensures configured: g.GWPhase == hconfig.GroundWaterPhase
+
+// ---------------------------------------------------------------------------
+// C10  reading the schedules: an event of the field is kept iff its date is not before the simulation start (an event dated
+// ON the first simulated day is inside the period), with its date, quantity and kind in the slot under the count
+// (Datum is the date converter of C12; the token texts are text layer: number(token) is the parsed value)
+//@ region Input#fertkeep from "NDu++" to "if g.ZTDG[NDuindex] < g.BEGINN {"
+//@   serves C10
+//@   opaque DateConverter$1
+//@   requires count: 0 <= NDu && NDu < 299
+//@   ensures kept: NDu == old(NDu) + ite(valztdg >= g.BEGINN, 1, 0)
+//@   ensures slot: valztdg >= g.BEGINN ==> g.ZTDG[NDu-1] == valztdg && g.DGART[NDu-1] == fertilizerToken[2] && l.DGMG[NDu-1] == ufreal("number", fertilizerToken[1])*g.DUNGSZEN
+//@   ensures earlier: forall(k, 0, old(NDu), g.ZTDG[k] == old(g.ZTDG[k]) && g.DGART[k] == old(g.DGART[k]) && l.DGMG[k] == old(l.DGMG[k]))
+//@ region Input#tillkeep from "NRTIL++" to "if g.EINTE[NRTIL] < g.BEGINN {"
+//@   serves C10
+//@   opaque DateConverter$1
+//@   requires count: 0 <= NRTIL && NRTIL < 198
+//@   ensures kept: NRTIL == old(NRTIL) + ite(valEinte >= g.BEGINN, 1, 0)
+//@   ensures slot: valEinte >= g.BEGINN ==> g.EINTE[NRTIL] == valEinte && g.EINT[NRTIL-1] == ufreal("number", tilageTokens[1])
+//@   ensures earlier: forall(k, 1, old(NRTIL)+1, g.EINTE[k] == old(g.EINTE[k])) && forall(k, 0, old(NRTIL), g.EINT[k] == old(g.EINT[k]) && g.TILART[k] == old(g.TILART[k]))
+//@ region Input#irrkeep from "l.ANZBREG++" to "if g.ZTBR[l.ANZBREG-1] < g.BEGINN {"
+//@   serves C10
+//@   opaque DateConverter$1
+//@   ghost var date int
+//@   after call g.Datum: ghost date = res1
+//@   requires count: 0 <= l.ANZBREG && l.ANZBREG < 499
+//@   ensures kept: l.ANZBREG == old(l.ANZBREG) + ite(date >= g.BEGINN, 1, 0)
+//@   ensures slot: date >= g.BEGINN ==> g.ZTBR[l.ANZBREG-1] == date && g.BREG[l.ANZBREG-1] == ufreal("number", SLAGtoken[1]) && g.BRKZ[l.ANZBREG-1] == ufreal("number", SLAGtoken[2])
+//@   ensures earlier: forall(k, 0, old(l.ANZBREG), g.ZTBR[k] == old(g.ZTBR[k]) && g.BREG[k] == old(g.BREG[k]) && g.BRKZ[k] == old(g.BRKZ[k]))
+
+// ---------------------------------------------------------------------------
+// C04  multi-year layouts: a record is accepted only if it is the calendar day after the previously accepted record
+// (py, pd: year and day of year of that record; the text layer - parsing of the date - is abstracted: Year(), YearDay(),
+// Day(), Month() of the parsed date are consistent observers of an arbitrary date). Any other record ends reading with an
+// error, so a file with a gap - inside a year, at the end of a year or of whole years - never loads.
+//@ global define ydays(y) = ite(leap(y), 366, 365)
+//@ global define nextday(py, pd, y, d) = (y == py && d == pd + 1) || (y == py + 1 && d == 1 && pd == ydays(py))
+//@ region ReadWeatherCSV#nextrecord from "if first { // failsave" to "if d.datetime.YearDay() != T {"
+//@   serves C04
+//@   ghost var py int
+//@   ghost var pd int
+//@   requires date: 1 <= d.datetime.YearDay() && d.datetime.YearDay() <= ydays(d.datetime.Year()) && iff(d.datetime.Day() == 1 && d.datetime.Month() == 1, d.datetime.YearDay() == 1)
+//@   requires previous: !first ==> 1 <= yrz && yrz <= len(s.JAR) && s.JAR[yrz-1] == py && T == pd + 1 && 1 <= pd && pd <= ydays(py) && 1901 <= py && py <= 2099
+//@   ensures consecutive: !old(first) ==> nextday(py, pd, d.datetime.Year(), d.datetime.YearDay())
+//@   ensures index: T == d.datetime.YearDay() && !first
+//@   ensures yearslot: yrz == ite(old(first), 1, ite(d.datetime.Year() == py, old(yrz), old(yrz) + 1))
+//@   return-ensures error: !isnil(result0)
+//@ region ReadWeatherCZ#nextrecord from "if first { // failsave" to "if d.datetime.YearDay() != T {"
+//@   serves C04
+//@   ghost var py int
+//@   ghost var pd int
+//@   requires date: 1 <= d.datetime.YearDay() && d.datetime.YearDay() <= ydays(d.datetime.Year()) && iff(d.datetime.Day() == 1 && d.datetime.Month() == 1, d.datetime.YearDay() == 1)
+//@   requires previous: !first ==> 1 <= yrz && yrz <= len(s.JAR) && s.JAR[yrz-1] == py && T == pd + 1 && 1 <= pd && pd <= ydays(py) && 1901 <= py && py <= 2099
+//@   ensures consecutive: !old(first) ==> nextday(py, pd, d.datetime.Year(), d.datetime.YearDay())
+//@   ensures index: T == d.datetime.YearDay() && !first
+//@   ensures yearslot: yrz == ite(old(first), 1, ite(d.datetime.Year() == py, old(yrz), old(yrz) + 1))
+//@   return-ensures error: !isnil(result0)
+// the accepted record is stored in the slot of its year and its day of year, and becomes the "previous record" of the next
+// iteration (year in JAR, day of year in MaxYearDays = T; the loop increments T before the next record is examined),
+// which is the precondition `previous` of the region above
+//@ region ReadWeatherCSV#store from "s.JAR[yrz-1] = d.datetime.Year()" to "s.MaxYearDays[yrz-1] = T"
+//@   serves C04
+//@   requires slot: 1 <= yrz && yrz <= len(s.JAR) && yrz <= len(s.MaxYearDays) && T == d.datetime.YearDay() && 1 <= T
+//@   ensures year: s.JAR[yrz-1] == d.datetime.Year()
+//@   ensures days: s.MaxYearDays[yrz-1] == d.datetime.YearDay()
+//@   ensures record: s.TMP[yrz-1][T-1] == d.tavg && s.TMI[yrz-1][T-1] == d.tmin && s.TMA[yrz-1][T-1] == d.tmax && s.REG[yrz-1][T-1] == d.precip && s.RADI[yrz-1][T-1] == d.globrad && s.WIN[yrz-1][T-1] == d.wind && s.RELF[yrz-1][T-1] == d.relhumid
+//@ region ReadWeatherCZ#store from "s.JAR[yrz-1] = d.datetime.Year()" to "s.MaxYearDays[yrz-1] = T"
+//@   serves C04
+//@   requires slot: 1 <= yrz && yrz <= len(s.JAR) && yrz <= len(s.MaxYearDays) && T == d.datetime.YearDay() && 1 <= T
+//@   ensures year: s.JAR[yrz-1] == d.datetime.Year()
+//@   ensures days: s.MaxYearDays[yrz-1] == d.datetime.YearDay()
+//@   ensures record: s.TMP[yrz-1][T-1] == d.tavg && s.TMI[yrz-1][T-1] == d.tmin && s.TMA[yrz-1][T-1] == d.tmax && s.REG[yrz-1][T-1] == d.precip && s.RADI[yrz-1][T-1] == d.globrad && s.WIN[yrz-1][T-1] == d.wind && s.RELF[yrz-1][T-1] == d.relhumid
